@@ -302,6 +302,18 @@ pub fn check_c19_step(net: &Net, st: &StepRecord) -> Option<String> {
         if count(&f) > before && o.next_peer_pks.is_empty() {
             return Some("the run marked a call/canon as sent to another peer but names no next peer".into());
         }
+        // calls are executed only where they are addressed: a call result that is new in this run's data (neither in the previous
+        // nor in the incoming data) was recorded by this peer, so the call it belongs to must be addressed to this peer
+        let (pc, cc) = (facts(&st.prev).map(|f| f.result_cids()).unwrap_or_default(), facts(&st.cur).map(|f| f.result_cids()).unwrap_or_default());
+        for ((kind, cid), n) in f.result_cids() {
+            if kind != "call" && kind != "failed" { continue; }
+            let known = pc.get(&(kind.clone(), cid.clone())).cloned().unwrap_or(0).max(cc.get(&(kind.clone(), cid.clone())).cloned().unwrap_or(0));
+            if n > known {
+                if let Some((_, _, (peer, svc, func, _))) = f.service_result(&cid) {
+                    if &peer != me { return Some(format!("this run recorded a result of the call {peer} ({svc:?} {func:?}), which is addressed to another peer: calls run only where they are addressed")); }
+                }
+            }
+        }
     }
     None
 }
@@ -484,6 +496,64 @@ fn c02_directed(rep: &mut Report, seed: u64) {
     }
 }
 
+/// C04 on the stream / canon template families of the stream checks (several writers, canon at a designated peer with late
+/// writers, par canons, folds, nested folds, maps): honest histories with races on canon peers and fan-in, which the general
+/// generator produces rarely.  Known-finding classes of other properties (recursive folds) are not generated here.
+fn c04_stream_templates(rep: &mut Report, seed: u64, n: usize) {
+    use crate::props::strm::{gen_template, run_random_det, drain, peers_named, Family};
+    let mut rng = Rng::new(seed ^ 0xC04_57);
+    // directed: a race on the canon's peer — two writers in par branches both forward to the canon peer, whose canon is then used
+    // elsewhere; the second branch's data arrives after the canon was executed and still says "canon requested"
+    {
+        let peers = peers_named(5);
+        let (a, b, p, c) = (&peers[1].id, &peers[2].id, &peers[3].id, &peers[4].id);
+        let scripts = [
+            format!(r#"(seq (par (call "{a}" ("svc" "str_1") [] $s) (call "{b}" ("svc" "str_2") [] $s)) (seq (canon "{p}" $s #c) (call "{c}" ("svc" "echo_3") [#c])))"#),
+            format!(r#"(seq (par (seq (call "{a}" ("svc" "str_1") [] $s) (null)) (seq (call "{b}" ("svc" "str_2") [] x) (ap x $s))) (seq (canon "{p}" $s #c) (seq (call "{c}" ("svc" "echo_3") [#c] y) (call "{p}" ("svc" "echo_4") [y #c]))))"#),
+        ];
+        for (si, air) in scripts.iter().enumerate() {
+            for round in 0..(n / 4).max(10) {
+                let mut net = Net::new(air, &peers, &format!("c04-canon-race-{si}-{round}"));
+                let mut r2 = rng.fork();
+                run_random_det(&mut net, &mut r2, 80);
+                drain(&mut net, &mut r2, 200);
+                rep.stat("c04_canon_race_histories");
+                for st in &net.log {
+                    rep.evaluations += 1;
+                    if let Some(why) = check_c04_step(st) {
+                        let input = step_json(&net, st);
+                        rep.oracle_fail(json!({"why": format!("{why} [directed canon race {si}]"), "input": input, "finding_key": finding_key("C04", &why, &step_json(&net, st)), "scenario": "c04 canon race"}));
+                        return;
+                    }
+                }
+            }
+        }
+    }
+    let fams = [Family::WritersCanon, Family::ParCanons, Family::WritersCanon, Family::FoldVisit, Family::NestedFolds, Family::StreamMap, Family::NewScopes];
+    for k in 0..n {
+        let n_peers = 3 + rng.below(3);
+        let peers = peers_named(n_peers);
+        let ids: Vec<String> = peers.iter().map(|p| p.id.clone()).collect();
+        let t = gen_template(&mut rng, fams[k % fams.len()].clone(), &ids);
+        if t.recursive { continue; }
+        let mut net = Net::new(&t.air, &peers, &format!("c04-tpl-{k}"));
+        net.init = rng.below(n_peers);
+        let mut r2 = rng.fork();
+        run_random_det(&mut net, &mut r2, 60);
+        drain(&mut net, &mut r2, 200);
+        rep.stat("c04_template_histories"); rep.stat(&format!("c04_template:{}", t.name.split('+').next().unwrap_or("?").split(':').next().unwrap_or("?")));
+        for st in &net.log {
+            rep.evaluations += 1;
+            if let Some(why) = check_c04_step(st) {
+                let input = step_json(&net, st);
+                let key = finding_key("C04", &why, &input);
+                rep.oracle_fail(json!({"why": format!("{why} [stream template {}]", t.name), "input": input, "finding_key": key, "scenario": "c04 stream templates"}));
+                return;
+            }
+        }
+    }
+}
+
 // ---------------------------------------------------------------- drivers
 
 fn canon_case(h: &Hist) -> String { format!("{}|{}", h.air, h.net.log.iter().map(|s| format!("{}:{}:{}", s.peer, s.event, s.outcome.ret_code)).collect::<Vec<_>>().join(",")) }
@@ -513,6 +583,7 @@ pub fn run_property(prop: &str, ctx: &mut Ctx, rep: &mut Report) {
         }
     }
     if prop == "C02" { c02_directed(rep, ctx.seed); }
+    if prop == "C04" { c04_stream_templates(rep, ctx.seed, if ctx.thorough { 1500 } else { 60 }); }
     if prop == "C20" { c20_canon_map_collision_probe(rep); c20_map_scenarios(rep, ctx.seed, if ctx.thorough { 24 } else { 8 }); }
     for hi in 0..pl.histories {
         let streams = pl.streams_every == 1 || hi % pl.streams_every == 1;
